@@ -80,7 +80,7 @@ add("wrap_deflate::w_routing_c11", ["C11"],
 CATCH = "catch_unwind -> catch_unwind_identity"
 add("capi::l_deflate_bound", ["C15"],
     "mz_deflateBound(n) >= exact size of the level-0 zlib stream for n bytes (n + 6 + 5*(n/31745+1), from stored.rs's block cut rule); "
-    "no overflow; equals max of the formula's two arms; mz_compressBound(n) is the same value",
+    "no overflow; not below either arm of the documented sufficient bound (128 + 1.1 n, 128 + n + 5 per 31 KiB block); mz_compressBound(n) is the same value",
     "all n < 2^32 (exact)", functions=["mz_deflateBound", "mz_compressBound"], timeout=300,
     assumes=["level-0 stream size formula derived from stored.rs (validated against the real compressor for n <= 3 in e_comp and natively in refcheck)"])
 add("capi::w_mz_inflate", ["C17", "C06"],
@@ -282,6 +282,15 @@ add("capi::w_mz_checksum_wrappers", ["C16", "C17"],
     "mz_adler32 / mz_crc32: null pointer => initial value whatever the length; otherwise the Rust function on exactly (ptr, len) from the low 32 bits of the running value; result fits 32 bits",
     "running value arbitrary u64 (valid Adler halves), 2 symbolic bytes, zero-length case", kind="W", timeout=600,
     functions=["mz_adler32", "mz_crc32", "mz_adler32_oxide"])
+
+add("wrap_deflate::w_compressor_reset", ["C18"],
+    "CompressorOxide::reset() from a compressor whose every scalar and every array is arbitrary (any prior history: mid-block, pending output, saved lazy match, error status, "
+    "arbitrary hash chains and window) leaves all 28 scalars equal to CompressorOxide::new(flags) and every entry of the hash/next/dictionary/LZ-code/output/Huffman arrays zero "
+    "(universally quantified indices); settings are kept",
+    "levels 0..=10 x raw/zlib x 5 strategies; 300 KB of state symbolic; slice::fill modelled as whole-array assignment", kind="W", tier="quick", timeout=1200, mem_gb=40, heavy=True,
+    functions=["CompressorOxide::reset", "ParamsOxide::reset", "DictOxide::reset", "HashBuffers::reset", "LZOxide::new", "HuffmanOxide::default"],
+    stubs=["fill -> fill_model"], assumes=["<[T]>::fill on the 32 K-element arrays = whole-array assignment (model stub)"],
+    replay=dict(kind="native", vals=[], cmd=["reset-check"], sig=lambda env: "reset-leaves-stale-state"))
 
 
 def all_harnesses():
